@@ -66,6 +66,24 @@ pub fn has_gate_cycle(p: &Program) -> bool {
     false
 }
 
+/// Panics are keyed by call site, except the Sierra-to-CASM assertion "Wrong ap changes for
+/// <invocation>" (one site for every libfunc), which is keyed by the libfunc it names, with
+/// "same-type" marked when all its generic arguments are equal (`downcast<i64, i64>`).
+fn panic_signature(pr: &panics::PanicRec) -> String {
+    if let Some(rest) = pr.msg.strip_prefix("Wrong ap changes for ") {
+        let name: String = rest.chars().take_while(|c| c.is_ascii_alphanumeric() || *c == '_').collect();
+        let args: Vec<&str> = rest
+            .strip_prefix(name.as_str())
+            .and_then(|r| r.strip_prefix('<'))
+            .and_then(|r| r.split('>').next())
+            .map(|a| a.split(',').map(|x| x.trim()).collect())
+            .unwrap_or_default();
+        let same = args.len() >= 2 && args.iter().all(|a| *a == args[0]);
+        return format!("wrong-ap-change:{name}{}", if same { ":same-type-arguments" } else { "" });
+    }
+    format!("panic@{}", pr.loc)
+}
+
 pub fn artefact(item: &SierraItem, muts: &[Mut]) -> Value {
     json!({"origin": item.origin, "sierra": item.text, "mutations": muts.iter().map(sierramut::to_json).collect::<Vec<_>>()})
 }
@@ -86,7 +104,7 @@ pub fn judge(p: &Program, nonlinear: bool) -> Result<(u8, bool, sierra::PipeResu
             let acc = r.with_gas == Stage::Accepted || r.no_gas == Stage::Accepted;
             Ok((rank, acc, r))
         }
-        Err((pr, stage)) => Err((format!("panic@{}", pr.loc), format!("{stage} panicked at {}: {}", pr.loc, truncate(&pr.msg, 300)))),
+        Err((pr, stage)) => Err((panic_signature(&pr), format!("{stage} panicked at {}: {}", pr.loc, truncate(&pr.msg, 300)))),
     }
 }
 
@@ -130,8 +148,8 @@ impl Prop for C14 {
          swap, libfunc id swap, argument / result / return variable edits, branch retarget / delete / duplicate, \
          type and libfunc declaration edits incl. generic-argument values (+-1, negation, 0, +2^128, P, 2^300) \
          and kinds, declaration delete / duplicate / reorder, type-info flag flips, function entry point / \
-         signature edits); the enumeration is complete in thorough and thinned (every 5th element of the cross \
-         products) in quick. (1b) Libfunc instantiations: every generic libfunc of the corpus with 1-3 type arguments is declared with arguments from a pool of 28 boundary types (empty / singleton / 2^128-wide / perfect-square / full-field BoundedInt ranges, all integer types, felt252, NonZero, Array, Box; complete for arity 1-2, thinned for 3). (2) Seeded multi-point mutants (2-4 mutations). (3) Felt vectors (mutated valid \
+         signature edits); the enumeration is complete in thorough for programs of up to 1,000 statements (larger ones: every 40th element of the cross products) and thinned (every 3rd element of the cross \
+         products, programs of up to 400 statements) in quick. (1b) Libfunc instantiations: every generic libfunc of the corpus with 1-3 type arguments is declared with arguments from a pool of 28 boundary types (empty / singleton / 2^128-wide / perfect-square / full-field BoundedInt ranges, all integer types, felt252, NonZero, Array, Box; complete for arity 1-2, thinned for 3). (2) Seeded multi-point mutants (2-4 mutations). (3) Felt vectors (mutated valid \
          serialisations and random) through ContractClass::extract_sierra_program. Each program goes through \
          ProgramRegistryInfo::new, calc_metadata (linear; non-linear for small programs), \
          calc_metadata_ap_change_only and compile (gas check on and off). Violation = a panic (key = \
@@ -160,6 +178,10 @@ impl Prop for C14 {
         let mut global: u64 = 0;
         let mut reported = std::collections::BTreeSet::new();
         for item in &corpus {
+            // Thorough: complete for programs of up to 1,000 statements; the few larger ones
+            // (32 of the 33 million single-point mutants, at 1,000-3,000 statements each) are thinned
+            // to every 40th element of the cross products, which keeps the tier at tens of minutes.
+            let thin = if tier == Tier::Thorough && item.program.statements.len() > 1000 { 40 } else { thin };
             let muts = sierramut::enumerate(&item.program, thin);
             // Baseline (unmutated) once per program on shard 0.
             for m in muts {
